@@ -7,7 +7,7 @@
 //! * `state_machine` lets a harness choose the code generator at run time.
 use std::cell::RefCell;
 
-use crate::graph::{Graph, GraphError};
+use crate::graph::Graph;
 use crate::leaf::VariantKind;
 
 #[derive(Debug, Clone, Default, PartialEq, Eq)]
@@ -32,7 +32,8 @@ pub struct GraphDump {
     pub root: usize,
     pub states: Vec<StateDump>,
     pub leaves: Vec<LeafDump>,
-    /// `NoUniversalStart`, `EmptyMatch(i)`, `Disambiguation([i, j, ..])`
+    /// Debug rendering of the graph errors with the `LeafId(..)` wrappers and closing parentheses
+    /// removed: `NoUniversalStart`, `EmptyMatch(0`, `Disambiguation([0, 2]`
     pub errors: Vec<String>,
 }
 
@@ -100,14 +101,9 @@ pub(crate) fn capture(graph: &Graph) {
         });
     }
     for e in graph.errors() {
-        d.errors.push(match e {
-            GraphError::NoUniversalStart => "NoUniversalStart".into(),
-            GraphError::EmptyMatch(l) => format!("EmptyMatch({})", l.0),
-            GraphError::Disambiguation(v) => format!(
-                "Disambiguation({:?})",
-                v.iter().map(|l| l.0).collect::<Vec<_>>()
-            ),
-        });
+        // Debug rendering, e.g. `NoUniversalStart`, `EmptyMatch(LeafId(0))`,
+        // `Disambiguation([LeafId(0), LeafId(2)])` - no dependency on the variant set
+        d.errors.push(format!("{e:?}").replace("LeafId(", "").replace(')', "").replace("EmptyMatch(", "EmptyMatch(").replace("])", "]"));
     }
     CTL.with(|c| c.borrow_mut().graph = Some(d));
 }
